@@ -216,6 +216,10 @@ func (d *c19DB) runCase(cs c19Case) (problem string, nontrivial bool, desc strin
 		switch r.defect {
 		case "short":
 			line = fs[0]
+		case "quoted-empty":
+			line = "\"\""
+		case "blanks-only":
+			line = "  "
 		case "barequote":
 			line = "ab\"cd" + string(cs.sep) + line
 		case "quote-then-text":
@@ -435,6 +439,9 @@ func runC19(env *lib.Env, rep *lib.Report) {
 				alphabet = append(alphabet, c19Record{fields: append([]string{}, valid...), defect: "short"})
 			}
 			alphabet = append(alphabet, c19Record{fields: append([]string{}, valid...), defect: "barequote"})
+			// records that look like blank lines: one quoted empty field, one field of blanks (a valid value for a single
+			// varchar column, a short record for anything wider - never something to skip silently)
+			alphabet = append(alphabet, c19Record{fields: append([]string{}, valid...), defect: "quoted-empty"}, c19Record{fields: append([]string{}, valid...), defect: "blanks-only"})
 			alphabet = append(alphabet, c19Record{fields: append([]string{}, valid...), defect: "quote-then-text"})
 			unterminated := c19Record{fields: append([]string{}, valid...), defect: "unterminated"}
 			ident := make([]int, len(types))
